@@ -431,6 +431,37 @@ func (c *d6Ctx) report(fn *ssa.Function, entryMust, entryMay world.Facts, depth 
 			r.Fail(key, w.InstrPos(e.in), fmt.Sprintf("the manifest is rewritten in place (%s truncates it, the new content is written afterwards)%s: a crash between the two leaves an empty or partial manifest and start-up restore fails although a previous snapshot existed; replacement must be an atomic rename of a complete temporary file", e.op, where))
 		}
 	}
+	// (f) every file the snapshot writes starts empty: a file opened for writing is created with
+	// truncation (os.Create, or O_TRUNC / O_EXCL), so that what is renamed into place or named by the
+	// manifest is exactly what this attempt wrote, whatever an earlier failed attempt left behind
+	for _, e := range inf.events {
+		if e.kind == "other" {
+			continue
+		}
+		key := fmt.Sprintf("%s|f:written-file-starts-empty:%s", top, e.kind)
+		switch e.op {
+		case "os.Create", "os.WriteFile":
+			r.OK(key, w.InstrPos(e.in), e.op+" truncates an existing file"+where)
+		case "os.OpenFile":
+			if len(e.in.Call.Args) < 2 {
+				continue
+			}
+			fl, ok := world.ConstInt(e.in.Call.Args[1])
+			if !ok {
+				r.Und(key, w.InstrPos(e.in), "open flags are not constant"+where)
+				continue
+			}
+			const oWRONLY, oRDWR, oEXCL, oTRUNC, oAPPEND = 0x1, 0x2, 0x80, 0x200, 0x400
+			if fl&(oWRONLY|oRDWR) == 0 {
+				continue // read-only open
+			}
+			if fl&(oTRUNC|oEXCL) != 0 && fl&oAPPEND == 0 {
+				r.OK(key, w.InstrPos(e.in), "opened for writing with O_TRUNC/O_EXCL"+where)
+			} else {
+				r.Fail(key, w.InstrPos(e.in), fmt.Sprintf("the %s file is opened for writing without O_TRUNC/O_EXCL (flags %#x)%s: if an earlier attempt left a longer file behind (it failed or crashed after writing it), the new content overwrites only its beginning and the stale tail is published with it — the manifest/state no longer parses and start-up restore fails although good snapshots are on disk", e.kind, fl, where))
+			}
+		}
+	}
 	if fn == c.top {
 		for _, ret := range world.Returns(fn) {
 			rv := world.RetVals(ret)
